@@ -178,7 +178,9 @@ def isSeparatorNote (x : Xml) : M Bool :=
 def noteLabel (s : DC) (x : Xml) (kind : String) : M DC :=
   (isSeparatorNote x) >>= fun sep =>
   if sep then pure s else
-  (x.attrReq (lit "w") (lit "id")) >>= fun id => pure (s.queueRun (lit kind ++ id ++ lit ")\t"))
+  (x.attrReq (lit "w") (lit "id")) >>= fun id =>
+  -- `queue_run_for_next_paragraph`: the run is for the NEXT paragraph, a pending implicit one ends here
+  (s.flushImplicit (some 4)) >>= fun s0 => pure (s0.queueRun (lit kind ++ id ++ lit ")\t"))
 
 /-- `str(tree.attrib.get(qn(tree, "w:<name>")))` -/
 def attrStrOrNone (x : Xml) (name : String) : M Str :=
